@@ -235,15 +235,50 @@ impl Ctx {
     pub fn out_fd_note(&mut self, v: serde_json::Value) { self.emit(v); }
 }
 
+// ---- deadlock probe ----------------------------------------------------------------------------
+static DEADLOCK_PROBE: std::sync::atomic::AtomicBool = std::sync::atomic::AtomicBool::new(false);
+/// Opt in (drivers whose cases never legitimately block for seconds, i.e. no child processes / long timed waits): once a case
+/// is older than 35 s the watchdog thread samples every other thread of the process through /proc/self/task 20 times over 10 s.
+/// If the thread set is unchanged and every thread sits in state S with unchanged CPU time and unchanged voluntary +
+/// involuntary context-switch counts, nothing in the process is running, nothing wakes up on a timer that fires, and nothing
+/// outside can wake it: the case can never finish. That is a state predicate (global quiescence with the case still open),
+/// not a deadline; the worker then reports `deadlock` and exits, anything else stays with the wall-clock limit (inconclusive).
+pub fn enable_deadlock_probe(on: bool) { DEADLOCK_PROBE.store(on, Ordering::SeqCst); }
+#[cfg(not(miri))]
+fn all_other_threads_blocked() -> Option<String> {
+    fn snap() -> Option<BTreeMap<u64, (char, u64, u64, String)>> {
+        let me = unsafe { libc::syscall(libc::SYS_gettid) } as u64; let mut m = BTreeMap::new();
+        for e in std::fs::read_dir("/proc/self/task").ok()? { let e = e.ok()?; let tid: u64 = e.file_name().to_string_lossy().parse().ok()?; if tid == me { continue; }
+            let comm = std::fs::read_to_string(e.path().join("comm")).unwrap_or_default().trim().to_string(); if comm.starts_with("zv-") { continue; }
+            let stat = match std::fs::read_to_string(e.path().join("stat")) { Ok(s) => s, Err(_) => continue }; // thread exited meanwhile
+            let rest = &stat[stat.rfind(')')? + 2..]; let f: Vec<&str> = rest.split(' ').collect(); let state = f.first()?.chars().next()?; let cpu = f.get(11)?.parse::<u64>().ok()? + f.get(12)?.parse::<u64>().ok()?;
+            let status = std::fs::read_to_string(e.path().join("status")).unwrap_or_default(); let mut cs = 0u64; for l in status.lines() { if l.starts_with("voluntary_ctxt_switches") || l.starts_with("nonvoluntary_ctxt_switches") { cs += l.split_whitespace().last()?.parse::<u64>().ok()?; } }
+            m.insert(tid, (state, cpu, cs, comm)); }
+        Some(m)
+    }
+    let first = snap()?; if first.is_empty() || first.values().any(|v| v.0 != 'S') { return None; }
+    for _ in 0..20 { std::thread::sleep(Duration::from_millis(500)); if snap()? != first { return None; } }
+    Some(format!("{} threads, every one in state S with no CPU time and no context switch during 10 s: {:?}", first.len(), first.values().map(|v| v.3.clone()).collect::<Vec<_>>()))
+}
+#[cfg(miri)]
+fn all_other_threads_blocked() -> Option<String> { None }
+
 /// Watchdog thread: a case that burns more CPU than its limit (an order of magnitudes above any legitimate case)
 /// is reported as a `cpu_limit` event and the worker exits with status 3; the orchestrator restarts after it.
 pub fn start_watchdog(out_path: Option<String>) {
-    std::thread::spawn(move || loop {
+    let _ = std::thread::Builder::new().name("zv-watchdog".into()).spawn(move || loop {
         std::thread::sleep(Duration::from_millis(250));
         let s = CASE_START_CPU_MS.load(Ordering::SeqCst);
         if s == u64::MAX { continue; }
         let cpu = if cfg!(miri) { 0 } else { process_cpu_ms().saturating_sub(s) };
         let wall = wall_ms().saturating_sub(CASE_START_WALL.load(Ordering::SeqCst));
+        if DEADLOCK_PROBE.load(Ordering::SeqCst) && wall > 35_000 && wall < 70_000 {
+            let case_start = CASE_START_WALL.load(Ordering::SeqCst);
+            if let Some(d) = all_other_threads_blocked() { if CASE_START_WALL.load(Ordering::SeqCst) == case_start && CASE_START_CPU_MS.load(Ordering::SeqCst) != u64::MAX {
+                if let Some(p) = &out_path { if let Ok(mut f) = std::fs::OpenOptions::new().append(true).open(p) { let _ = writeln!(f, "{}", json!({"t": "watchdog", "kind": "deadlock", "wall_ms": wall, "detail": d})); } }
+                std::process::exit(3); } }
+            continue;
+        }
         let over_cpu = cpu > CASE_CPU_LIMIT_MS.load(Ordering::SeqCst);
         let over_wall = wall > CASE_WALL_LIMIT_MS.load(Ordering::SeqCst);
         if over_cpu || over_wall {
